@@ -19,12 +19,20 @@ OUTCOMES = {
     "GaveUp": (b"% SZS status GaveUp for stdin\n", 0),
     "Error": (b"% SZS status Error for stdin\n", 0),
     "UnknownWord": (b"% SZS status Satisfiable for stdin\n", 0),
+    # words that are not SZS status values but close to 'Theorem' (case, suffix). Not in the alphabet: an output
+    # that contains the phrase 'SZS status Theorem for x' inside another sentence before its real status line -
+    # anthem takes the first match and reports success; the property does not define what makes a line THE status
+    # line, so that output is not judged (observed on the unchanged tree, recorded in DESIGN 10.13)
+    "LowercaseTheorem": (b"% SZS status theorem for stdin\n", 0),
+    "UppercaseTheorem": (b"% SZS status THEOREM for stdin\n", 0),
+    "TheoremSuffix": (b"% SZS status TheoremX for stdin\n", 0),
     "NoStatusLine": (b"% Termination reason: Unknown\n", 0),
     "NonUtf8Noise": (b"\xff\xfe\xfa garbage \x80\n", 0),
     "Crash": (b"", 3),
     "KilledBySignal": (b"", "SEGV"),
 }
 QUICK_OUTCOMES = ["Theorem", "CounterSatisfiable", "Timeout", "UnknownWord", "NoStatusLine", "NonUtf8Noise", "Crash", "KilledBySignal"]
+NEAR_MISS_OUTCOMES = ["Theorem", "LowercaseTheorem", "UppercaseTheorem", "TheoremSuffix"]
 
 STANDIN = r"""#!/bin/sh
 d="$C10_DIR"
@@ -385,7 +393,7 @@ def main():
     run.assumptions.append("a schedule is the sequence of released problem names; each violating schedule is replayed twice and must reproduce")
     pool = ThreadPoolExecutor(max_workers=12)
     if tier == "quick":
-        plan = [(1, 1, QUICK_OUTCOMES, "sequential"), (2, 1, QUICK_OUTCOMES, "sequential"), (2, 2, QUICK_OUTCOMES, "sequential"), (2, 2, ["Theorem", "Timeout", "Crash", "KilledBySignal"], "independent"),
+        plan = [(1, 1, QUICK_OUTCOMES, "sequential"), (1, 1, NEAR_MISS_OUTCOMES, "sequential"), (2, 2, NEAR_MISS_OUTCOMES, "sequential"), (2, 1, QUICK_OUTCOMES, "sequential"), (2, 2, QUICK_OUTCOMES, "sequential"), (2, 2, ["Theorem", "Timeout", "Crash", "KilledBySignal"], "independent"),
                 (3, 2, ["Theorem", "CounterSatisfiable"], "sequential"), (3, 3, ["Theorem", "NoStatusLine"], "independent")]
     else:
         allo = list(OUTCOMES.keys())
